@@ -286,12 +286,32 @@ type ReadScript struct {
 	Limit      uint32 `json:"limit"`
 	Reuse      bool   `json:"reuse,omitempty"` // SetReuseFrames: one DataFrame object is handed out again and again
 	TextHeader bool   `json:"text_header,omitempty"`
+	Long       bool   `json:"long,omitempty"` // hundreds of CONTINUATION frames through one framer
 }
 
 var colRead = vstat.New("C19", "c19.read")
 
 func genReadScript(t *rapid.T) ReadScript {
 	var s ReadScript
+	if rapid.IntRange(0, 39).Draw(t, "long") == 0 {
+		// a framer that lives long: many well-formed header blocks with a few CONTINUATION frames each, or one
+		// block spread over hundreds of them (RFC 9113 sets no limit on either)
+		s.Long = true
+		if rapid.Bool().Draw(t, "manyblocks") {
+			for b, nb := 0, rapid.IntRange(70, 140).Draw(t, "nblocks"); b < nb; b++ {
+				sid := uint32(1 + 2*b)
+				s.Stream = append(s.Stream, fr.Headers(sid, []byte{0x82}, true, false, 0, false, 0, false, 0)...)
+				for j := 0; j < 3; j++ {
+					s.Stream = append(s.Stream, fr.Continuation(sid, j == 2, []byte{0x84})...)
+				}
+			}
+		} else {
+			s.Stream = append(s.Stream, fr.Headers(1, []byte{0x82}, true, false, 0, false, 0, false, 0)...)
+			for j, nc := 0, rapid.SampledFrom([]int{255, 256, 257, 300, 1000}).Draw(t, "ncont"); j < nc; j++ {
+				s.Stream = append(s.Stream, fr.Continuation(1, j == nc-1, []byte{0x84})...)
+			}
+		}
+	}
 	n := rapid.IntRange(1, 5).Draw(t, "nframes")
 	for i := 0; i < n; i++ {
 		switch rapid.IntRange(0, 7).Draw(t, "fk") {
@@ -336,10 +356,13 @@ func genReadScript(t *rapid.T) ReadScript {
 
 func TestRead(t *testing.T) {
 	colRead.Mandatory("over-read-limit", "malformed:DATA", "malformed:HEADERS", "malformed:PRIORITY", "malformed:RST_STREAM", "malformed:SETTINGS", "malformed:PING", "malformed:GOAWAY", "malformed:WINDOW_UPDATE", "malformed:CONTINUATION", "malformed:PUSH_PROMISE",
-		"ok:DATA", "ok:HEADERS", "ok:PRIORITY", "ok:RST_STREAM", "ok:SETTINGS", "ok:PING", "ok:GOAWAY", "ok:WINDOW_UPDATE", "ok:CONTINUATION", "ok:PUSH_PROMISE", "ok:UNKNOWN")
+		"ok:DATA", "ok:HEADERS", "ok:PRIORITY", "ok:RST_STREAM", "ok:SETTINGS", "ok:PING", "ok:GOAWAY", "ok:WINDOW_UPDATE", "ok:CONTINUATION", "ok:PUSH_PROMISE", "ok:UNKNOWN", "long-lived-framer:200+-continuation-frames")
 	vstat.Run(t, vstat.Spec[ReadScript]{Col: colRead, Quick: 60000, Thorough: 2000000, Gen: genReadScript,
 		Exec: func(s ReadScript) *vstat.Violation {
 			v, cl := readAllOpt(s.Stream, s.Limit, s.Reuse)
+			if s.Long {
+				cl = append(cl, "long-lived-framer:200+-continuation-frames")
+			}
 			if v == nil {
 				nt := false
 				for _, c := range cl {
